@@ -57,6 +57,16 @@ class C02(Prop):
                 for kind in ("list", "poly", "pauli", "kernel"):
                     yield {"k": "rot", "kind": kind, "g": g, "ins": allp}
                 yield {"k": "rotmap", "g": g}
+        # (a2) the same on operands in other memory layouts (strided / reversed views, column-major arrays, maps
+        # returned by inverse()): what slicing and the library's own constructors hand to users
+        LAY = ("rev", "step", "fortran", "cols")
+        for n in (1, 2):
+            allp = enum.paulis(n)
+            for j, g in enumerate(enum.herm(n)):
+                for kind in ("list", "poly"):
+                    yield {"k": "rot", "kind": kind, "g": g, "ins": allp, "layout": LAY[(j + len(kind)) % 4]}
+                if n == 2:
+                    yield {"k": "rot", "kind": "list", "g": g[:1] + g[-1:], "qs": [1 + j % 2], "ins": allp, "layout": LAY[j % 4]}
         # (b) masked, N = 3 (and N = 2 single-qubit masks)
         for n in (2, 3):
             allp = enum.paulis(n)
@@ -86,6 +96,8 @@ class C02(Prop):
                 yield s
                 if i % 3 == 0:
                     yield {"k": "rot", "kind": "state", "g": e[2], "ins": e[1], "r": (i // 3) % (n + 1), "pkg": "py"}
+                if i % 5 == 0:
+                    yield dict(s, layout=("inverse", "fortran", "step")[(i // 5) % 3])
         # (c2) one wide register: N = 40, > 1024 low-weight operators rotated by dense and sparse generators
         rng = self.rng
         n = 40
@@ -136,12 +148,22 @@ class C02(Prop):
         try:
             G = be.pauli(g)
             mk = mask_of(be, qs, n) if qs else None
+            lay = scn.get("layout")
+            if lay:
+                rec["layout"] = lay
             if kind == "list":
                 L = be.plist(ins)
+                if lay:
+                    L = be.relayout(L, lay)
                 L.rotate_by(G, mk) if qs else L.rotate_by(G)
                 rec["outs"] = be.p_list(L)
             elif kind == "map":
                 L = be.cmap(ins)
+                if lay == "inverse":
+                    L = L.inverse().inverse()          # the same map, in whatever layout inverse() returns
+                    rec["ins"] = be.p_list(L)
+                elif lay:
+                    L = be.relayout(L, lay)
                 L.rotate_by(G)
                 rec["outs"] = be.p_list(L)
             elif kind == "state":
@@ -154,6 +176,8 @@ class C02(Prop):
             elif kind == "poly":
                 cs = [(j % 7 + 1) * 0.125 + 1j * (j % 3) for j in range(len(ins))]
                 L = be.poly(ins, cs)
+                if lay:
+                    L = be.relayout(L, lay)
                 L.rotate_by(G, mk) if qs else L.rotate_by(G)
                 rec["outs"] = be.p_list(L)
                 rec["csok"] = [complex(c) for c in be.tolist(L.cs)] == [complex(c) for c in cs]
